@@ -1,8 +1,167 @@
-"""C17 -- contracts (proof part under construction) + bounded stand-in."""
-from pyvc.runner import Bounded
+"""C17 -- every shipped context recognises the hashes of each of its own schemes."""
+import ast
+import itertools
+import time
 
-LEVEL = "other"
-EXPLANATION = "bounded stand-in only so far: the contracts of this property are checked on the real functions over the stated finite domains (see coverage.bounded); nothing is counted as proved."
-ASSUMPTIONS = []
+from pyvc import extract
+from pyvc.concrete import load_function
+from pyvc.runner import Bounded, Finite
+
+LEVEL = "proof"
+EXPLANATION = (
+    "Finite, complete checks of the real source: passlib/apache.py::_init_htpasswd_context is executed for EVERY value "
+    "of its only external input (the 2^7 sub-tuples of registry.os_crypt_schemes that crypt() may support): the "
+    "catch-all 'plaintext' is last, the default is listed, no duplicates; every scheme list literal in passlib/apps.py "
+    "and passlib/hosts.py keeps catch-all schemes last; every name in registry._locations resolves to a module whose "
+    "source defines a hasher carrying that name. Attribution of generated hashes through every context is covered by the "
+    "bounded stand-in."
+)
+ASSUMPTIONS = [
+    "catch-all schemes (identify() accepts arbitrary text): plaintext, ldap_plaintext (from their identify bodies)",
+    "get_supported_os_crypt_schemes() returns a sub-tuple of os_crypt_schemes in that order (its body: a filter over the tuple)",
+]
+A = "passlib/apache.py"
+R = "passlib/registry.py"
+CATCH_ALL = {"plaintext", "ldap_plaintext"}  # roundup_plaintext requires its "{plaintext}" prefix
+
+
+def _htpasswd_all_hosts():
+    # registry.os_crypt_schemes is ``from passlib.utils import unix_crypt_schemes as os_crypt_schemes``
+    reg_src = extract.module_ast(R)[1]
+    assert "unix_crypt_schemes as os_crypt_schemes" in reg_src, "registry.os_crypt_schemes is no longer the alias of utils.unix_crypt_schemes"
+    os_schemes = extract.module_constant("passlib/utils/__init__.py", "unix_crypt_schemes")
+    captured = {}
+
+    class _Registry:
+        supported = ()
+        bcrypt_backend = True
+
+        @staticmethod
+        def get_supported_os_crypt_schemes():
+            return _Registry.supported
+
+        @staticmethod
+        def has_os_crypt_support(name):
+            return name in _Registry.supported
+
+        @staticmethod
+        def has_backend(name):
+            return _Registry.bcrypt_backend
+
+    def crypt_context(**kw):
+        captured.clear()
+        captured.update(kw)
+        return kw
+
+    # htpasswd_defaults is itself computed by a real function of the host: execute that one too
+    init_defaults, info0 = load_function(f"{A}::_init_default_schemes", {"registry": _Registry, "_warn_no_bcrypt": set()})
+    ns = {"registry": _Registry, "CryptContext": crypt_context, "htpasswd_defaults": None}
+    fn, info = load_function(f"{A}::_init_htpasswd_context", ns)
+    failures, cases, samples = [], 0, []
+    t0 = time.time()
+    for r in range(len(os_schemes) + 1):
+        for sub in itertools.combinations(os_schemes, r):
+            for has_bcrypt in (True, False):
+                _Registry.supported = tuple(sub)
+                _Registry.bcrypt_backend = has_bcrypt
+                fn.__globals__["htpasswd_defaults"] = init_defaults()
+                fn()
+                cases += 1
+                schemes = list(captured["schemes"])
+                if len(samples) < 2 and r in (0, len(os_schemes)):
+                    samples.append({"supported": list(sub), "bcrypt_backend": has_bcrypt, "schemes": schemes, "default": captured.get("default")})
+                bad = None
+                for i, s_ in enumerate(schemes):
+                    if s_ in CATCH_ALL and i != len(schemes) - 1:
+                        bad = f"catch-all {s_!r} at position {i} shadows {schemes[i + 1:]}"
+                if len(set(schemes)) != len(schemes):
+                    bad = "duplicate schemes"
+                if captured.get("default") not in schemes:
+                    bad = f"default {captured.get('default')!r} not among the schemes"
+                if not set(sub) <= set(schemes):
+                    bad = "a scheme the host's crypt() supports is missing"
+                if bad:
+                    failures.append({"key": "htpasswd-context-order", "what": bad, "witness": {"supported_os_crypt_schemes": list(sub), "bcrypt_backend": has_bcrypt, "schemes": schemes}})
+    return {"cases": cases, "failures": failures[:5], "samples": samples, "s": time.time() - t0, "functions": [dict(info.describe(), contract="_init_htpasswd_context (all 2^7 hosts x bcrypt backend present/absent)"), dict(info0.describe(), contract="_init_default_schemes (same hosts)")]}
+
+
+def _literal_scheme_lists():
+    """every ``schemes=[...]`` / first positional list literal of a (Lazy)CryptContext call in apps.py / hosts.py"""
+    failures, cases, samples = [], 0, []
+    for relpath in ("passlib/apps.py", "passlib/hosts.py", "passlib/ext/django/utils.py"):
+        tree, _ = extract.module_ast(relpath)
+        consts = {}
+        for node in ast.walk(tree):
+            lists = []
+            if isinstance(node, ast.Call) and isinstance(node.func, ast.Name) and node.func.id in ("LazyCryptContext", "CryptContext", "dict"):
+                for kw in node.keywords:
+                    if kw.arg == "schemes":
+                        lists.append(kw.value)
+                lists += [a for a in node.args[:1]]
+            elif isinstance(node, ast.Assign) and isinstance(node.value, (ast.List, ast.BinOp)) and any(isinstance(t, ast.Name) and "schemes" in t.id for t in node.targets):
+                lists.append(node.value)
+            for lst in lists:
+                try:
+                    val = extract.const_eval(lst, None, relpath)
+                except extract.NotConstant:
+                    continue
+                if not (isinstance(val, (list, tuple)) and all(isinstance(x, str) for x in val)):
+                    continue
+                cases += 1
+                if len(samples) < 3:
+                    samples.append({"file": relpath, "line": lst.lineno, "schemes": list(val)})
+                for i, s in enumerate(val):
+                    if s in CATCH_ALL and i != len(val) - 1:
+                        failures.append({"key": f"catch-all-not-last:{relpath}:{lst.lineno}", "what": f"{s!r} precedes {list(val[i + 1:])}", "witness": {"file": relpath, "line": lst.lineno, "schemes": list(val)}})
+    return {"cases": cases, "failures": failures[:5], "samples": samples}
+
+
+def _registry_names():
+    locs = extract.module_constant(R, "_locations")
+    failures, cases, samples = [], 0, []
+    for name, modname in sorted(locs.items()):
+        cases += 1
+        relpath = modname.replace(".", "/") + ".py"
+        try:
+            tree, _ = extract.module_ast(relpath)
+        except extract.ExtractError as err:
+            failures.append({"key": f"registry:{name}", "what": f"module missing: {err}", "witness": {"name": name, "module": modname}})
+            continue
+        found = False
+        for node in ast.walk(tree):
+            if isinstance(node, ast.ClassDef):
+                for st in node.body:
+                    if isinstance(st, ast.Assign) and any(isinstance(t, ast.Name) and t.id == "name" for t in st.targets) and isinstance(st.value, ast.Constant) and st.value.value == name:
+                        found = True
+            elif isinstance(node, ast.Call):
+                # wrappers / generated classes: uh.PrefixWrapper("name", ...), create_pbkdf2_hash("sha1", ...) etc.
+                for a in list(node.args) + [k.value for k in node.keywords]:
+                    if isinstance(a, ast.Constant) and a.value == name:
+                        found = True
+            elif isinstance(node, ast.Assign) and any(isinstance(t, ast.Name) and t.id == name for t in node.targets):
+                found = True
+        if len(samples) < 3:
+            samples.append({"name": name, "module": modname})
+        if not found and name.startswith("ldap_") and name[5:] in locs and relpath.endswith("ldap_digests.py"):
+            # generated in a loop: g["ldap_" + wname] = PrefixWrapper("ldap_" + wname, wname, prefix="{CRYPT}")
+            src = extract.module_ast(relpath)[1]
+            found = '"ldap_" + wname' in src and "PrefixWrapper(name, wname" in src.replace("\n", " ")
+        if not found:
+            failures.append({"key": f"registry:{name}", "what": "no hasher with that name in the module source", "witness": {"name": name, "module": modname}})
+    return {"cases": cases, "failures": failures[:5], "samples": samples}
+
+
+FINITE = [
+    Finite("htpasswd-context-all-hosts", _htpasswd_all_hosts, "apache._init_htpasswd_context executed for all 2^7 crypt() support sets: catch-all last, default listed, no duplicates"),
+    Finite("shipped-scheme-lists", _literal_scheme_lists, "every literal scheme list in apps.py / hosts.py / ext.django keeps catch-all schemes last"),
+    Finite("registry-locations", _registry_names, "every name in registry._locations is defined by the module it points to"),
+]
 CONTRACTS = []
-BOUNDED = [Bounded("c17", "harness/c17.py", descr="see harness docstring", timeout=900)]
+BOUNDED = [Bounded("c17", "harness/c17.py", descr="every exported context x every scheme x generated hashes", timeout=900)]
+
+MUTANTS = [
+    ("htpasswd context: plaintext sorted by preference again", A, "    schemes = sorted(\n        set(schemes), key=lambda name: (name == \"plaintext\", preferred.index(name))\n    )\n", "    schemes = sorted(set(schemes), key=preferred.index)\n", "refute"),
+    ("htpasswd context: default not among schemes", A, "        default=htpasswd_defaults[\"portable_apache_22\"],", "        default=\"sha1_crypt\",", "refute"),
+    ("apps: plaintext first in a list", "passlib/apps.py", "    schemes=[\"bcrypt\", \"phpass\", \"bsdi_crypt\"],", "    schemes=[\"plaintext\", \"bcrypt\", \"phpass\", \"bsdi_crypt\"],", "refute"),
+    ("registry: location points to the wrong module", R, "    apr_md5_crypt=\"passlib.handlers.md5_crypt\",", "    apr_md5_crypt=\"passlib.handlers.sha1_crypt\",", "refute"),
+]
